@@ -85,8 +85,7 @@ theorem tracked_capture (rt rt' : RouteIn → Int) (w : World) (h : Hook) (s : S
       cs'.hasRouting ≠ 0 ∧ cs'.wanDir = false) ∧
     ((h = .lanIngress ∨ (s.ingressIf = 0 ∧ (pidIsControlPlane w s).isCp = false)) →
       step rt' w h s l2 = step rt w h s l2 ∧
-      (rtrackRoom w s p → (step rt w h s l2).2.realises w s (h == .lanIngress)
-        (match h with | .lanIngress => lanFate w s p cs.decision | _ => wanFate w s p cs.decision))) := by
+      (rtrackRoom w s p → (step rt w h s l2).2.realises w s (h == .lanIngress) (hookFate h w s p cs.decision))) := by
   have hl4 := parsePacket_l4 hp
   rcases hh with rfl | rfl
   · -- LAN ingress
@@ -366,7 +365,7 @@ theorem reverseRefresh_wanOriginated (w : World) (c : Ctx) (k : Key) (hk : (getT
   have hl4 : c.l4proto = IPPROTO_UDP := by rw [← getTuples_l4 c, ← rev_l4, hk]; exact h4
   have hnt : ¬ (c.l4proto = IPPROTO_TCP) := by rw [hl4]; decide
   unfold reverseRefresh
-  simp only [hnt, if_false, hl4, if_true]
+  rw [if_neg hnt, if_pos hl4]
   split
   · exact ⟨cs, hl, hw, hr⟩
   · rw [hk, markUdpSeen_live w k true {} cs (udpLive_of w k cs hl (by rw [h4]; decide) he)]
@@ -403,7 +402,8 @@ theorem wanOriginated_step (rt : RouteIn → Int) (w : World) (h : Hook) (s : Sk
         rw [lanIngress_pkt rt w s l2 p hp, lanIngressPkt_udp rt w s l2 p hnt' hsl]
         exact lanUdp_wandir rt w s l2 p _ hm2 (by rw [hte']; exact hw)
       rw [hstep]
-      refine ⟨⟨_, ?_, by rw [hte']; exact hw, by rw [hte']; exact hr⟩, fun _ _ _ _ => rfl⟩
+      refine ⟨⟨touchUdp cs w.now { dscp := p.tuples.dscp }, ?_, by rw [hte']; exact hw, by rw [hte']; exact hr⟩,
+        fun _ _ _ _ => rfl⟩
       rw [hm]; exact alookup_areplace_self _ _ _ _ hl
     | wanEgress =>
       obtain ⟨p, hp, hpk⟩ := frameKey_capture (Or.inr rfl) hfk
@@ -430,7 +430,8 @@ theorem wanOriginated_step (rt : RouteIn → Int) (w : World) (h : Hook) (s : Sk
             rw [hm]
             exact wanUdpRouted_wandir rt _ s l2 p _ _ (by rw [hte']; exact hw)
           rw [hstep]
-          refine ⟨⟨_, ?_, by rw [hte']; exact hw, by rw [hte']; exact hr⟩, fun _ _ _ _ => rfl⟩
+          refine ⟨⟨touchUdp cs (pidIsControlPlane w s).w.now {}, ?_, by rw [hte']; exact hw, by rw [hte']; exact hr⟩,
+            fun _ _ _ _ => rfl⟩
           rw [hm]; exact alookup_areplace_self _ _ _ _ (by rw [hconn0]; exact hl)
       · simp only [step]
         rw [Props.wan_forwarded_passes rt w s l2 hi]
